@@ -1213,7 +1213,18 @@ def gen_spl(rng, tier):
                 area = [rng.choice([1.0, 4.0, 100.0, 2.5e3, 1e6]) * (0.5 + rng.random()) for _ in range(g.n)]
                 ze = z if rng.random() < 0.7 else gen.elevation(rng, g, rng.choice(SPL_FAMILIES))
                 kpart = ("s " + hx(ks)) if kind == "s" else ("a " + gen.hexes(kv))
-                lines.append("spl %s %s %s %s %s %s %s" % (kpart, hx(m), hx(nn), hx(tol), hx(dt), gen.hexes(area), gen.hexes(ze)))
+                sets = ""
+                if rng.random() < 0.2:
+                    # setter calls on a fresh eroder before it erodes (the configuration that counts is
+                    # the one they leave; a non-linear exponent on a multiple-direction graph is refused)
+                    toks = []
+                    for _ in range(rng.randint(1, 2)):
+                        if rng.random() < 0.7:
+                            toks.append("set:n:" + hx(rng.choice([1.0, 1.0, 2.0, 1.5, 0.8])))
+                        else:
+                            toks.append("set:m:" + hx(rng.choice([0.3, 0.5, 1.0])))
+                    sets = " 1 " + " ".join(toks)
+                lines.append("spl %s %s %s %s %s %s %s%s" % (kpart, hx(m), hx(nn), hx(tol), hx(dt), gen.hexes(area), gen.hexes(ze), sets))
                 z = ze
         out.append(("e%d" % k, lines))
     return out
@@ -1242,11 +1253,11 @@ SPL_TB = FLOW_TB + ["std::pow of the C++ side and Float.pow of the Lean runtime 
                     "the m_linear classification expression and the Newton exit test are regenerated from spl.hpp by translate.py"]
 register("C12", lean_modules=["FsProofs.Properties.ClosedC12Resolve", "FsProofs.Properties.ShapesC12", "FsProofs.Properties.ClosedMore", "FsProofs.Properties.C12", "FsProofs.Properties.C13"], theorems=["Fs.Closed.grid_C12_spl_resolve", "Fs.Closed.grid_resolve_dist_pos", "Fs.Closed.raster_C12_spl_resolve", "Fs.Closed.mesh_C12_spl_resolve", "Fs.Closed.profile_C12_spl_resolve", "Fs.Shapes.source_shape_C12", "Fs.Closed.raster_C12_spl_single", "Fs.Closed.raster_C12_spl_multi", "Fs.Closed.erode_nonneg_routed", "Fs.C13.erode_zero", "Fs.C13.erode_floor", "Fs.C13.sweep_final", "Fs.C13.erode_look", "Fs.C12.nodeStep_skip", "Fs.C12.nodeStep_linear", "Fs.C12.spl_floor", "Fs.C12.spl_nonneg", "Fs.C12.fold_linear", "Fs.C12.contribs_nonneg"],
          gen=gen_spl, oracles=[oracle.c12], cause=oracle.spl_cause, nontrivial=spl_nontrivial, tags=spl_tags,
-         sections={"erosion", "ncorr", "spl"},
+         sections={"erosion", "ncorr", "spl", "spl_eff", "splset0", "splset1"},
          rule="routed graphs (single / parallel single / multi, pflood or spanning-tree resolved or unresolved, masks, interior base levels) x K scalar/array (0 .. 1, x0.1..3 variation) x m in {.3,.5,1} x n in {.5,.8,1,1.5,2,4} x tol x dt in {0,1,10,100,1e4,1e8} x random areas up to 1e6; 1-2 erode() calls per update on one eroder object, elevation = routed field or another field; non-trivial = some erosion is non-zero")
 register("C13", lean_modules=["FsProofs.Properties.ClosedC12Resolve", "FsProofs.Properties.ShapesC13", "FsProofs.Properties.ClosedMore", "FsProofs.Properties.C12", "FsProofs.Properties.C13"], theorems=["Fs.Closed.grid_C12_spl_resolve", "Fs.Closed.raster_C12_spl_resolve", "Fs.Closed.mesh_C12_spl_resolve", "Fs.Closed.profile_C12_spl_resolve", "Fs.Shapes.source_shape_C13", "Fs.Closed.raster_C12_spl_single", "Fs.Closed.raster_C12_spl_multi", "Fs.C13.erode_residual", "Fs.C13.erode_newton_residual", "Fs.C13.spl_newton_residual", "Fs.C13.newton_exit", "Fs.C13.newton_none_iff", "Fs.C13.nodeStep_newton_single", "Fs.C13.sweep_final", "Fs.C12.spl_residual", "Fs.C12.nodeStep_linear", "Fs.C12.fold_linear", "Fs.Spl.solve_residual"],
          gen=gen_spl, oracles=[oracle.c13], cause=oracle.spl_cause, nontrivial=spl_nontrivial, tags=spl_tags,
-         sections={"erosion", "ncorr", "spl"},
+         sections={"erosion", "ncorr", "spl", "spl_eff", "splset0", "splset1"},
          rule="same scenario family as C12; oracle evaluates the residual of the backward-Euler equation at every non-limited node (double arithmetic with a stated bound: tolerance + 64 eps x sensitivity-weighted magnitudes); non-trivial = some erosion is non-zero")
 for _p in ("C12", "C13"):
     PROPS[_p]["trusted_base"] = SPL_TB
